@@ -1165,6 +1165,17 @@ impl NamingActor {
             self.update_service(service_detail);
         }
         for mut instance in snapshot.instances {
+            // a peer's copy of an instance that this node manages itself (the copy names this node as its source) is at
+            // best as new as the local one: it must not replace it (periodic snapshot pulls raced with fresh local writes)
+            if instance.from_cluster == self.node_id {
+                if let Some(old) =
+                    self.get_instance(&instance.get_service_key(), &instance.get_short_key())
+                {
+                    if !old.is_from_cluster() {
+                        continue;
+                    }
+                }
+            }
             self.update_instance(&instance.get_service_key(), instance, None, true, None);
         }
     }
